@@ -152,3 +152,10 @@ def describe(cases, obs):
         kmh[json.dumps(c['km'])] = kmh.get(json.dumps(c['km']), 0) + 1
         ctx[c['ctx']] = ctx.get(c['ctx'], 0) + 1
     return {'key_mappers': kmh, 'contexts': ctx, 'operator_histogram': muxprop.op_histogram(cases)}
+
+
+CLAIM = {
+    'text': "Theorems (Coq, generic in item type, key type with decidable equality, key mapper and inner machine): group_by's slot-level machine (global index counter, per-slot insertion-ordered maps) refines the per-key machine over any refined inner machine; after any item sequence there is one group per distinct key in first-appearance order whose inner machine is a fresh one fed exactly the members (filter by key) in order; only the item's group emits while it is consumed; open groups are completed in first-appearance order; membership is a partition. Python == on keys (1 == 1.0 == True, rebuilt tuples, big ints) is modelled by a canonical serialisation, tied by correspondence with such keys; oracle: partition by == computed in Python from an inner tap.",
+    'note': 'Trusted: Coq kernel+VM; model of Python ==/hash (canon) tied by correspondence only; NaN keys excluded.',
+    'technique': 'Coq proof (forward-simulation refinement of a slot-level model by per-key local machines, list-level induction) + vm_compute correspondence against /repo + model-free oracle',
+}
